@@ -1,4 +1,5 @@
 import Driver.Codec
+import Resolved.Spec.RefDecode
 
 namespace Resolved.Driver
 
@@ -14,21 +15,66 @@ def bad (why : String) : Result := { model := "bad-op:" ++ why, oracle := "bad-o
 def showEErr : EErr → String
   | .counterTooLarge c b => s!"CounterTooLarge({c},{b})"
 
+def be16? (buf : List UInt8) : Option Nat :=
+  match buf with
+  | a :: b :: _ => some (a.toNat * 256 + b.toNat)
+  | _ => none
+
+/-- C03 oracle: the implementation's verdict against the reference decoder + the ID rule. -/
+def oracleDecode (buf : List UInt8) (impl : String) : String :=
+  let ref := Ref.message buf
+  if impl.startsWith "ok " then
+    match ref with
+    | none => "fail:C03:accepted-malformed"
+    | some (m, _) => if "ok " ++ showMessage m = impl then "ok" else "fail:C03:misread"
+  else if impl.startsWith "err " then
+    match ref with
+    | some _ => "fail:C03:rejected-wellformed"
+    | none =>
+      match be16? buf with
+      | none => if impl = "err CompletelyBusted" then "ok" else "fail:C03:short-not-busted"
+      | some id => if impl.endsWith s!"({id})" then "ok" else "fail:C03:error-id"
+  else "fail:C03:unparsable-impl-output"
+
 def cmdDecode (hex impl : String) : Result :=
   match bytesOfHex hex with
   | none => bad "hex"
   | some buf =>
+    let o := oracleDecode buf impl
     match decodeMessage buf with
-    | .ok m => { model := "ok " ++ showMessage m, tags := "ok" }
-    | .error e => { model := "err " ++ showDErr e, tags := (showDErr e).takeWhile (· != '(') |>.toString }
+    | .ok m => { model := "ok " ++ showMessage m, oracle := o, tags := "ok" }
+    | .error e => { model := "err " ++ showDErr e, oracle := o,
+                    tags := ((showDErr e).takeWhile (· != '(')).toString }
+
+/-- C04 oracle: the implementation's bytes read back by the reference decoder give the message,
+    and every compression pointer addresses the start of a complete name written earlier in full. -/
+def oracleEncode (m : Message) (impl : String) : String :=
+  if impl.startsWith "ok " then
+    match bytesOfHex (impl.drop 3).toString with
+    | none => "fail:C04:unparsable-impl-output"
+    | some bs =>
+      match Ref.message bs with
+      | none => "fail:C04:encoded-bytes-malformed"
+      | some (m', tr) =>
+        if m' != m then "fail:C04:roundtrip-differs"
+        else if tr.pointerTargets.all (fun t => tr.fullNameStarts.contains t) then "ok"
+        else "fail:C04:pointer-not-at-full-name"
+  else
+    let big := (m.answers ++ m.authority ++ m.additional).any (fun r => Ref.rdataLen r ≥ 65536)
+    let many := m.questions.length ≥ 65536 || m.answers.length ≥ 65536 || m.authority.length ≥ 65536
+                  || m.additional.length ≥ 65536
+    if big || many then "ok" else "fail:C04:refused-wellformed"
 
 def cmdEncode (msg impl : String) : Result :=
   match parseMessage msg with
   | none => bad "message"
   | some m =>
+    let o := oracleEncode m impl
     match encodeMessage m with
-    | .ok bs => { model := "ok " ++ hexOfBytes bs, tags := "ok" }
-    | .error e => { model := "err " ++ showEErr e, tags := "err" }
+    | .ok bs =>
+      { model := "ok " ++ hexOfBytes bs, oracle := o,
+        tags := if bs.length ≥ 16384 then "ok-big" else if (m.answers.length + m.authority.length + m.additional.length) ≥ 2 then "ok-multi" else "ok-small" }
+    | .error e => { model := "err " ++ showEErr e, oracle := o, tags := "err" }
 
 def dispatch (fields : List String) : Result :=
   match fields with
